@@ -73,6 +73,16 @@ CHECKS = {
                  "trichotomy, <= is < or ==. 'Never equal to a non-URL' is type-dispatch glue probed on the implementation only."),
         "design_ref": "DESIGN.md section 7 C10",
     },
+    "C12": {
+        "text": ("Proved: the type gate of query values (str/int/float accepted; inf/nan ValueError; bool/None/other TypeError); None clears "
+                 "(with_query, update_query) or is a no-op (extend_query); parse_qsl distributes over '&' hence extend_query appends the new "
+                 "pairs after the existing ones for every existing query; without_query_params re-serialises exactly the unnamed pairs. "
+                 "PARTIAL: 'serialised pairs read back unchanged' (parse_qsl inverts the query-part quoter) and the update clause of "
+                 "MultiDict.update are the extracted list-algebra predicate c12_pred checked on the implementation (13+ existing queries x "
+                 "4 operations x 180+ argument forms incl. signed zeros, list values, bool/None/inf/nan/bytes) and the model, not proved. "
+                 "Argument immutability is probed on the implementation."),
+        "design_ref": "DESIGN.md section 7 C12",
+    },
     "C13": {
         "text": ("Proved: raw_parts re-compose to raw_path (every URL whose path is empty or rooted under an authority), the suffix is a tail of "
                  "the name, u / s is definitionally u.joinpath(s), with_suffix keeps the raw stem byte for byte and appends the quoted suffix. "
